@@ -19,6 +19,11 @@ type Occ struct {
 	C string `json:"c,omitempty"` // occurrence context
 	Q bool   `json:"q,omitempty"` // written inside a [...] bracket list
 	P string `json:"p,omitempty"` // package of a global binder
+	// X marks a binder (on its bind occurrence or on its export form) as an
+	// instance of a RECORDED finding class of round 6: nested-let nested-progn
+	// export-list export-string export-other-file.  Every anomaly of that
+	// binder is a consequence of the class and is reported under its key.
+	X string `json:"x,omitempty"`
 }
 
 type File struct {
@@ -57,6 +62,12 @@ type em struct {
 	last byte
 	br   int    // open [ ] depth
 	ctx  string // when set, overrides the context of every symbol written
+	// a call whose head is a bare reference to a user function named test /
+	// test-let (heads the analyzer special-cases): everything up to its closing
+	// parenthesis is written with the context head-special-cased-arg
+	depth    int
+	hsDepth  int
+	savedCtx string
 }
 
 func (e *em) sep() {
@@ -70,19 +81,32 @@ func (e *em) w(s string) {
 	e.b.WriteString(s)
 	e.last = s[len(s)-1]
 }
-func (e *em) open()        { e.sep(); e.w("(") }
-func (e *em) openB()       { e.sep(); e.w("["); e.br++ }
-func (e *em) close()       { e.w(")") }
-func (e *em) closeB()      { e.w("]"); e.br-- }
+func (e *em) open()  { e.sep(); e.w("("); e.depth++ }
+func (e *em) openB() { e.sep(); e.w("["); e.br++; e.depth++ }
+func (e *em) close() {
+	e.w(")")
+	if e.hsDepth > 0 && e.hsDepth == e.depth {
+		e.hsDepth, e.ctx = 0, e.savedCtx
+	}
+	e.depth--
+}
+func (e *em) closeB()      { e.w("]"); e.br--; e.depth-- }
 func (e *em) lit(s string) { e.sep(); e.w(s) }
 func (e *em) quote()       { e.sep(); e.w("'") }
 func (e *em) nl()          { e.w("\n") }
 func (e *em) sym(o Occ) {
+	head := e.last == '('
 	e.sep()
 	e.w(o.N)
 	o.Q = e.br > 0
 	if e.ctx != "" {
 		o.C = e.ctx
+	}
+	if head && o.R == "ref" && (o.N == "test" || o.N == "test-let") {
+		o.C = "call-of-head-special-cased"
+		if e.hsDepth == 0 {
+			e.hsDepth, e.savedCtx, e.ctx = e.depth, e.ctx, "head-special-cased-arg"
+		}
 	}
 	e.occ = append(e.occ, o)
 }
@@ -131,6 +155,9 @@ type bind struct {
 	tmplAvoid []string // template-introduced binder names
 	isMacro   bool
 	file      int
+	expSpell  string // "export-list" | "export-string": how the export form names it
+	occAt     int    // index+1 of its bind occurrence in the current file's annotations
+	occFile   int
 	presig    bool   // signature fixed when the section was planned (callable before its definition)
 	fwdUsed   bool   // the body calls a function defined further down
 	defconst  bool   // written (defconst name value "doc"): a set plus an implicit export
